@@ -33,6 +33,23 @@ func mgClone(g ygot.GoStruct) ygot.GoStruct {
 	return mgCloneValue(reflect.ValueOf(g)).Interface().(ygot.GoStruct)
 }
 
+// mgKeyMemo, when set, makes mgCloneValue copy the key objects of maps too, one copy per original.
+var mgKeyMemo map[uintptr]reflect.Value
+
+// mgFreshClones clones the trees so that they share no memory at all with the originals; key
+// objects that the originals share with each other are shared by the clones in the same way (so
+// "the same key" in two trees stays the same key).  A write to a key object of a clone then
+// cannot leak into the originals and, through them, into later clones.
+func mgFreshClones(gs ...ygot.GoStruct) []ygot.GoStruct {
+	mgKeyMemo = map[uintptr]reflect.Value{}
+	defer func() { mgKeyMemo = nil }()
+	var out []ygot.GoStruct
+	for _, g := range gs {
+		out = append(out, mgClone(g))
+	}
+	return out
+}
+
 func mgCloneValue(v reflect.Value) reflect.Value {
 	t := v.Type()
 	switch v.Kind() {
@@ -71,7 +88,18 @@ func mgCloneValue(v reflect.Value) reflect.Value {
 		m := reflect.MakeMapWithSize(t, v.Len())
 		it := v.MapRange()
 		for it.Next() {
-			m.SetMapIndex(it.Key(), mgCloneValue(it.Value()))
+			k := it.Key()
+			if mgKeyMemo != nil && k.Kind() == reflect.Interface && !k.IsNil() && k.Elem().Kind() == reflect.Ptr {
+				// fresh key objects, the same one for the same original (see mgFreshClones)
+				addr := k.Elem().Pointer()
+				nk, ok := mgKeyMemo[addr]
+				if !ok {
+					nk = mgCloneValue(k)
+					mgKeyMemo[addr] = nk
+				}
+				k = nk
+			}
+			m.SetMapIndex(k, mgCloneValue(it.Value()))
 		}
 		return m
 	case reflect.Slice:
@@ -1094,7 +1122,24 @@ func mgMergeCase(p *reg.Pkg, seed int64, force string, id *int, tf *treeFile, su
 			case mgAllPrefix(bad, "ordered:"):
 				find("merge/ordered-overlap-accepted", "ordered lists that overlap without b being a same-order subset of a are merged (orderedMapKeysMergeable only looks at the first key of b)", bad)
 			default:
-				find("merge/accepts-incompatible", "incompatible inputs are merged", bad)
+				// both known causes at once (a binary leaf and an ordered list) are reported as such
+				var bins, ords, rest []string
+				for _, it := range bad {
+					switch {
+					case mgAllLeafKind([]string{it}, "bin", fa, fb):
+						bins = append(bins, it)
+					case strings.HasPrefix(it, "ordered:"):
+						ords = append(ords, it)
+					default:
+						rest = append(rest, it)
+					}
+				}
+				if len(rest) > 0 {
+					find("merge/accepts-incompatible", "incompatible inputs are merged", bad)
+				} else {
+					find("merge/binary-leaf-concatenated", "two different values of a binary leaf are merged (bytes appended) instead of being reported as a conflict", bins)
+					find("merge/ordered-overlap-accepted", "ordered lists that overlap without b being a same-order subset of a are merged (orderedMapKeysMergeable only looks at the first key of b)", ords)
+				}
 			}
 		}
 	} else {
